@@ -514,7 +514,10 @@ func (r *reader) curr() (ch rune, pos Pos) {
 }
 
 // eof is a marker code point to signify that the reader can't read any more.
-const eof = rune(0)
+// It is a value no reader can produce (invalid input decodes to U+FFFD), so a
+// NUL character in the text is an ordinary, illegal character rather than a
+// premature end of input.
+const eof = rune(-1)
 
 // ScanDelimited reads a delimited set of runes
 func ScanDelimited(r io.RuneScanner, start, end rune, escapes map[rune]rune, escapesPassThru bool) ([]byte, error) {
